@@ -14,6 +14,25 @@ HARNESS = ("harness/cmd/vharness (Go, built against /repo's working tree with -t
 NOT_APPLICABLE = {}
 
 PROPS = {
+    "C05": {
+        "design_ref": "DESIGN.md section 6 (C05)",
+        "projection": "each call's result; no-receiver / duplicate / unsupported log counts",
+        "mismatch_is_input": True,
+        "timeout": {"quick": 1500, "thorough": 6000},
+        "level_text": "Coq theorems on the waiter mechanism (Model/Waiters.v: Do/register/recv/handleResponse/onPacket routing/Packet.Err/reconnect sweep) for every action list, i.e. every interleaving of any number of calls with ARBITRARY dispatched packets (permuted, duplicated, late, unknown or stale ids, pushes, peer requests): a finished call holds only a packet with its own request id that was routed to waiters (or timeout / lost connection / write error); a finished call never changes; unsolicited and duplicate responses leave exactly one log line; status 0 is success, every other status the typed error with the body's code/message or the 500 fallback. Tie: scripted peer over TCP and WebSocket, v1/v2, k<=8 concurrent calls, scripted packet lists, all 256 statuses; the forced history is replayed by the model and compared per call.",
+        "level_note": "Trusted: kernel, extraction, harness incl. scripted peers and the reference codec; proto.Unmarshal of control.Error is an oracle (per-case table). Mechanism model: the rest of the client is an adversarial environment (more behaviours than the real one). Note: AUTH/RECONNECT-command packets of any type are routed to waiters by handleControl (modelled as written; returns_own_id still holds).",
+        "assumptions": ["request ids of one connection context are distinct (C19) and fewer than 2^32 calls", "proto.Unmarshal(control.Error) as observed per case"],
+        "modelled": "client.Do, register, recv, handleResponse, onPacket/handleControl routing, Packet.Err, the waiter sweep of reconnect()",
+    },
+    "C07": {
+        "design_ref": "DESIGN.md section 6 (C07)",
+        "projection": "each call's result and the no-receiver log count",
+        "mismatch_is_input": True,
+        "level_text": "Coq theorems for every interleaving on a live connection: a request that has been handed to the transport has its waiter registered (C07_written_is_registered, invariant over all action lists without sweep), hence the matching response dispatched at any later point - also immediately after the write, before the caller waits - is stored (not logged as no-receiver) and is exactly what the caller returns when it takes it. The old order (write, then register) is kept as a witness example. Tie: the do.after-write hook parks 1..8 callers right after the write while the peer answers; every call must return its response; history replayed by the model.",
+        "level_note": "Trusted: kernel, extraction, harness, the hook runtime. Real-time clause (response before the deadline but caller descheduled past it: Go's select may pick either ready branch) is inherent and outside the model.",
+        "assumptions": ["Go select takes a ready channel when the deadline has not expired", "fewer than 2^32 calls per connection"],
+        "modelled": "client.Do (register before write), recv, handleResponse",
+    },
     "C19": {
         "design_ref": "DESIGN.md section 6 (C19)",
         "projection": "all",
